@@ -683,13 +683,22 @@ func c19GenSecond(t *rapid.T, cs *c19Case, p c19Pair) string {
 	if u, err := url.Parse(p.chartURL); err == nil && u.IsAbs() && u.Host != "" {
 		so, ok1 := c19OriginOf(u.Scheme, u.Host)
 		mo, ok2 := c19OriginOf(p.ra.scheme, p.ra.host+":"+p.ra.effPort())
-		if ok1 && ok2 && so != mo && rapid.IntRange(0, 3).Draw(t, "mirror") > 0 {
-			sec.URL = u.Scheme + "://" + u.Host + rapid.SampledFrom([]string{"", "/", "/mirror"}).Draw(t, "secondPath")
-			sec.ChartURL = p.chartURL
-			kind = "second-repo:lists-same-url-on-its-own-origin"
+		if ok1 && ok2 && so != mo {
+			switch rapid.IntRange(0, 4).Draw(t, "mirror") {
+			case 0:
+			case 1:
+				// another repository, on an origin of its own, whose index lists the very same absolute URL (both point at
+				// a third host): whichever entry is taken for the URL's owner, nobody's secret belongs on that host
+				sec.ChartURL = p.chartURL
+				kind = "second-repo:lists-same-url-on-a-third-origin"
+			default:
+				sec.URL = u.Scheme + "://" + u.Host + rapid.SampledFrom([]string{"", "/", "/mirror"}).Draw(t, "secondPath")
+				sec.ChartURL = p.chartURL
+				kind = "second-repo:lists-same-url-on-its-own-origin"
+			}
 		}
 	}
-	if rapid.IntRange(0, 2).Draw(t, "secondCreds") == 0 {
+	if rapid.IntRange(0, 2).Draw(t, "secondCreds") == 0 || (strings.HasSuffix(kind, "third-origin") && rapid.Bool().Draw(t, "thirdOriginCreds")) {
 		sec.User, sec.Pass = "u1", "p1"
 		kind += "+creds"
 	}
